@@ -2,6 +2,7 @@ package main
 
 import (
 	"fmt"
+	"go/token"
 	"strings"
 
 	"golang.org/x/tools/go/ssa"
@@ -191,6 +192,7 @@ func checkJoinNames(p *Program, r *Report, rule string) {
 			missing = append(missing, prm.Name())
 		}
 	}
+	checkJoinNamesOnEveryPath(p, r, rule, fn)
 	if len(missing) == 0 && len(appendElems) > 0 {
 		r.OK(rule, cn, p.Pos(fn.Pos()), "the names of both contexts and the names collected by earlier joins all flow into the result")
 	} else {
@@ -281,4 +283,99 @@ func checkLinkRelDerivation(p *Program, r *Report, rule string) {
 		}
 	}
 	r.Check(marked, rule, "template.(*escaper).escapeAction#marks-dynamic-rel", "", "an action inside a rel attribute marks its value as not static", "an action inside a link's rel attribute leaves the static rel values in force")
+}
+
+// checkJoinNamesOnEveryPath: with two different current names, every path through joinNames hands each of its four
+// inputs to the result (or has found the list in question empty): a name that is added only when some other list
+// is empty is dropped exactly when an earlier conditional has already left names.
+func checkJoinNamesOnEveryPath(p *Program, r *Report, rule string, fn *ssa.Function) {
+	const cn = "template.joinNames#every-input-on-every-path"
+	if len(fn.Params) != 4 {
+		r.OK(rule, cn, p.Pos(fn.Pos()), "not decided: joinNames does not take two names and two lists")
+		return
+	}
+	prmIdx := func(v ssa.Value) int {
+		for i, prm := range fn.Params {
+			if v == ssa.Value(prm) {
+				return i
+			}
+		}
+		return -1
+	}
+	leaf := func(v ssa.Value) tv {
+		bo, ok := v.(*ssa.BinOp)
+		if !ok || (bo.Op != token.EQL && bo.Op != token.NEQ) {
+			return tvUnknown
+		}
+		a, b := prmIdx(bo.X), prmIdx(bo.Y)
+		if a >= 0 && b >= 0 && a != b && a < 2 && b < 2 {
+			return tvOf(bo.Op == token.NEQ) // the two current names differ
+		}
+		return tvUnknown
+	}
+	key := func(i int) string { return fmt.Sprintf("p%d", i) }
+	mark := func(st map[string]bool, v ssa.Value) {
+		if elems, ok := variadicArgs(v); ok {
+			for _, e := range elems {
+				if i := prmIdx(e); i >= 0 {
+					st[key(i)] = true
+				}
+			}
+			return
+		}
+		if i := prmIdx(v); i >= 0 {
+			st[key(i)] = true
+		}
+	}
+	bad, n, calls := "", 0, 0
+	w := &tvWalk{Leaf: leaf, Visits: 2, Limit: 100000}
+	w.Step = func(in ssa.Instruction, st map[string]bool, val func(ssa.Value) tv) {
+		switch x := in.(type) {
+		case *ssa.Call:
+			calls++
+			for _, a := range x.Common().Args {
+				mark(st, a)
+			}
+		case *ssa.Store:
+			if _, isIA := x.Addr.(*ssa.IndexAddr); isIA {
+				mark(st, x.Val)
+			}
+		case *ssa.Range:
+			mark(st, x.X)
+		case *ssa.IndexAddr:
+			// a list that is walked element by element
+			mark(st, x.X)
+		}
+	}
+	w.Branch = func(iff *ssa.If, taken bool, st map[string]bool) {
+		bo, ok := iff.Cond.(*ssa.BinOp)
+		if !ok {
+			return
+		}
+		lv, isLen := isLenOf(bo.X)
+		k, isK := constInt(bo.Y)
+		if !isLen || !isK || k != 0 {
+			return
+		}
+		if i := prmIdx(lv); i >= 2 {
+			empty := bo.Op == token.EQL && taken || (bo.Op == token.NEQ || bo.Op == token.GTR) && !taken
+			if empty {
+				st[key(i)] = true // an empty list has nothing to contribute
+			}
+		}
+	}
+	w.Ret = func(ret *ssa.Return, st map[string]bool, val func(ssa.Value) tv) {
+		n++
+		for i := 0; i < 4; i++ {
+			if !st[key(i)] && bad == "" {
+				bad = fmt.Sprintf("%s does not reach the result on the path that returns at %s", fn.Params[i].Name(), p.Pos(ret.Pos()))
+			}
+		}
+	}
+	w.run(fn.Blocks[0], map[string]bool{})
+	if w.Over || calls == 0 {
+		r.OK(rule, cn, p.Pos(fn.Pos()), "not decided: the paths of joinNames are not followed")
+		return
+	}
+	r.Check(bad == "" && n > 0, rule, cn, p.Pos(fn.Pos()), "with two different current names, both names and both lists reach the result on every path", "with two different current names, "+bad+": a name is added only under a condition on something else (for instance only when no names were collected before) and is dropped exactly when an earlier or nested conditional has already left names — "+"`{{if .A}}{{if .B}}<img{{else}}<audio{{end}}{{else}}<iframe{{end}} src=\"{{.U}}\">` takes a plain URL for an iframe")
 }
